@@ -171,7 +171,9 @@ func getCur() (int64, int) { return curID, curGate }
 func getKW() int { return kwFD }
 
 //go:norace
-func setRun(active bool, kw int, cwd string) { isActive, kwFD, curCwd, isAbort = active, kw, cwd, false }
+func setRun(active bool, kw int, cwd string) {
+	isActive, kwFD, curCwd, isAbort = active, kw, cwd, false
+}
 
 //go:norace
 func setAbort() { isAbort = true }
